@@ -579,3 +579,178 @@ std::vector<Chunk> gen_text(Rng &r, const json &opts, const TextGen &g)
 }
 
 } // namespace sim
+
+namespace sim {
+
+std::vector<OptRef> collect_opts(Rng &r, const json &opts)
+{
+	std::vector<OptRef> out;
+	std::function<void(const json &, json, bool)> rec = [&](const json &os, json at, bool in_multi) {
+		for (auto &o : os) {
+			out.push_back(OptRef{at, o, in_multi});
+			if (o["t"] == "sec" && o.contains("sub")) {
+				int fl = o.value("fl", 0);
+				json at2 = at;
+				unsigned idx = (fl & F_MULTI) ? (unsigned)r.below(3) : 0;
+				at2.push_back(json::array({o["n"], idx}));
+				rec(o["sub"], at2, in_multi || (fl & F_MULTI));
+			}
+		}
+	};
+	rec(opts, json::array(), false);
+	return out;
+}
+
+static const char *TITLES[] = {"t0", "t1", "t2", "T0", "a b", "q'x", ""};
+
+static json typed_value(Rng &r, const std::string &t, bool hostile)
+{
+	if (t == "int")
+		return r.range(-1000, 1000);
+	if (t == "float")
+		return (double)r.range(-800, 800) / 8.0;
+	if (t == "bool")
+		return r.chance(1, 2);
+	return to_json_bytes(gen_string_value(r, hostile, 8));
+}
+
+static std::string text_value(Rng &r, const std::string &t, bool bad)
+{
+	if (bad) {
+		static const char *junk[] = {"zz", "1x", "", "0x", "9999999999999999999999", "1e999", "maybe", "--1", "0b2", "08"};
+		return junk[r.below(sizeof(junk) / sizeof(junk[0]))];
+	}
+	if (t == "int")
+		return gen_int_literal(r, nullptr);
+	if (t == "float")
+		return gen_float_literal(r);
+	if (t == "bool")
+		return gen_bool_literal(r);
+	return gen_string_value(r, false, 6);
+}
+
+json gen_api_step(Rng &r, int cl, int ctx, const std::vector<OptRef> &refs, const ApiGen &g)
+{
+	json s;
+	s["cl"] = cl;
+	s["c"] = ctx;
+	if (refs.empty()) {
+		s["op"] = "dump";
+		return s;
+	}
+	const OptRef &ref = refs[r.below(refs.size())];
+	std::string t = ref.decl["t"].get<std::string>();
+	int fl = ref.decl.value("fl", 0);
+	bool list = (fl & F_LIST) != 0;
+	s["at"] = ref.at;
+	s["name"] = ref.decl["n"];
+	if (g.illegal && r.chance(1, 12)) {
+		// illegal call: wrong type, unknown name, index beyond a scalar
+		unsigned k = (unsigned)r.below(3);
+		if (k == 0) {
+			static const char *types[] = {"int", "float", "bool", "str"};
+			std::string wt = types[r.below(4)];
+			s["op"] = std::string(r.chance(1, 2) ? "set" : "oset") + wt;
+			s["v"] = typed_value(r, wt, false);
+			s["idx"] = 0;
+			return s;
+		}
+		if (k == 1) {
+			s["name"] = "nosuchopt";
+			s["op"] = "setint";
+			s["v"] = 1;
+			s["idx"] = 0;
+			return s;
+		}
+		if (t != "sec" && t != "func" && t != "ptr") {
+			s["op"] = "set" + t;
+			s["v"] = typed_value(r, t, false);
+			s["idx"] = list ? (unsigned)r.range(0, 6) : (unsigned)r.range(1, 3);
+			return s;
+		}
+	}
+	if (t == "sec") {
+		if (!g.sections) {
+			s["op"] = "dump";
+			return s;
+		}
+		unsigned k = (unsigned)r.below(6);
+		if (k < 2 && (fl & F_TITLE) && (fl & F_MULTI)) {
+			s["op"] = "addtsec";
+			s["title"] = TITLES[r.below(4)];
+		} else if (k == 2) {
+			s["op"] = "rmnsec";
+			s["idx"] = (unsigned)r.below(4);
+		} else if (k == 3 && (fl & F_TITLE)) {
+			s["op"] = "rmtsec";
+			s["title"] = TITLES[r.below(4)];
+		} else if (k == 4) {
+			s["op"] = "rmsec";
+			std::string p = ref.decl["n"].get<std::string>();
+			if (fl & F_MULTI)
+				p += "=" + ((fl & F_TITLE) ? std::string(TITLES[r.below(4)]) : std::to_string(r.below(3)));
+			s["name"] = p;
+		} else if ((fl & F_TITLE) && (fl & F_MULTI)) {
+			s["op"] = "addtsec";
+			s["title"] = TITLES[r.below(4)];
+		} else {
+			s["op"] = "getters";
+		}
+		return s;
+	}
+	if (t == "func") {
+		s["op"] = "getters";
+		return s;
+	}
+	if (t == "ptr") {
+		if (g.text_setters && r.chance(2, 3)) {
+			if (list && r.chance(1, 2)) {
+				s["op"] = "setmulti";
+				s["vals"] = json::array({"pa", "pb"});
+			} else {
+				s["op"] = "setopt";
+				s["v"] = "pz";
+			}
+		} else
+			s["op"] = "getters";
+		return s;
+	}
+	unsigned k = (unsigned)r.below(12);
+	if (k < 3) {
+		s["op"] = std::string((g.by_option && r.chance(1, 3)) ? "oset" : "set") + t;
+		s["v"] = typed_value(r, t, g.hostile_strings);
+		s["idx"] = list ? (unsigned)r.range(0, 3) : 0u;
+	} else if (k < 5 && g.text_setters) {
+		s["op"] = "setopt";
+		s["v"] = to_json_bytes(text_value(r, t, g.bad_text && r.chance(1, 3)));
+	} else if (k < 7 && g.text_setters) {
+		s["op"] = "setmulti";
+		int n = list ? (int)r.range(1, 4) : 1;
+		json vals = json::array();
+		int badpos = (g.bad_text && r.chance(1, 3)) ? (int)r.below(n) : -1;
+		for (int i = 0; i < n; i++)
+			vals.push_back(to_json_bytes(text_value(r, t, i == badpos)));
+		s["vals"] = vals;
+		if (r.chance(1, 3))
+			s["byopt"] = true;
+	} else if (k < 9 && list) {
+		s["op"] = r.chance(1, 2) ? "setlist" : "addlist";
+		int n = (int)r.range(0, 4);
+		json vals = json::array();
+		for (int i = 0; i < n; i++)
+			vals.push_back(typed_value(r, t, g.hostile_strings));
+		s["vals"] = vals;
+	} else if (k == 9 && g.comments) {
+		s["op"] = "setcomment";
+		s["text"] = to_json_bytes(gen_string_value(r, false, 8));
+	} else if (k == 10 && g.getters) {
+		s["op"] = "getters";
+	} else {
+		s["op"] = "set" + t;
+		s["v"] = typed_value(r, t, g.hostile_strings);
+		s["idx"] = 0u;
+	}
+	return s;
+}
+
+} // namespace sim
